@@ -97,11 +97,10 @@ def decimal(value: _decimal.Decimal) -> bytes:
     if not isinstance(value, _decimal.Decimal):
         raise TypeError('decimal.Decimal required, received {}'.format(
             type(value)))
-    tmp = str(value)
-    if '.' in tmp:
-        decimals = len(tmp.split('.')[-1])
-        value = value.normalize()
-        raw = int(value * (_decimal.Decimal(10)**decimals))
+    exponent = value.as_tuple().exponent
+    if isinstance(exponent, int) and exponent < 0:
+        decimals = -exponent
+        raw = int(value.scaleb(decimals))
         return struct.pack('>Bi', decimals, raw)
     return struct.pack('>Bi', 0, int(value))
 
